@@ -222,7 +222,12 @@ def Op.targets : Op → List Path
 /-- a path argument that goes THROUGH a regular file is a kind conflict (a file where a directory is needed) -/
 def throughFile (t : Tree) (p : Path) : Bool := (prefixes p).dropLast.any (isFile t)
 
-def fuelFor (t : Tree) : Nat := 4 * t.length + 16
+/-- the total length of the tree's paths -/
+def totalLen (t : Tree) : Nat := (t.map fun e => e.1.length).sum
+
+/-- enough fuel for every copy and move on `t` (proved: Proofs.FsTerm2, `copy_always_returns`,
+    `move_always_returns`) -/
+def fuelFor (t : Tree) : Nat := totalLen t + 2
 
 /-- one API call on the reference model; `none` = the call does not return -/
 def step (t : Tree) (op : Op) : Option (Res × Tree) :=
